@@ -141,16 +141,20 @@ def all_orders(N):
 
 
 def gen_case(rng, kind=None):
-    kind = kind or rng.choice(["plain", "plain", "plain", "herm_adjoint", "herm_any", "herm_any", "raising", "ones"])
+    kind = kind or rng.choice(["plain", "plain", "plain", "herm_adjoint", "herm_unitary", "herm_any", "herm_any", "raising", "ones"])
     nparam = rng.choice([1, 1, 2, 2, 3])
     nfac = rng.choice([2, 2, 3, 3, 4])
     N = tuple(rng.randint(0, {1: 3, 2: 2, 3: 1}[nparam]) for _ in range(nparam))
     if sum(N) == 0:
         N = (1,) + N[1:]
-    herm = kind in ("herm_adjoint", "herm_any") or (kind in ("ones", "raising") and rng.random() < 0.3)
-    if kind == "herm_adjoint":
+    herm = kind in ("herm_adjoint", "herm_unitary", "herm_any") or (kind in ("ones", "raising") and rng.random() < 0.3)
+    if kind in ("herm_adjoint", "herm_unitary"):
         nfac = 2
     dims = [rng.randint(1, 3) for _ in range(nfac + 1)]
+    if kind == "herm_unitary":
+        dims = [dims[0]] * 3
+        if sum(N) < 2:
+            N = (2,) + N[1:]
     if herm:
         dims[-1] = dims[0]
     p_zero = rng.choice([0.0, 0.3, 0.5, 0.7])
@@ -172,7 +176,11 @@ def gen_case(rng, kind=None):
                         v = rand_val(rng)
                     t[(i, k) + o] = v
         tables.append(t)
-    if kind == "herm_adjoint":
+    if kind == "herm_unitary":  # `one` on the diagonal at order zero, zero off the diagonal (the U pattern)
+        for idx in list(tables[0]):
+            if sum(idx[2:]) == 0:
+                tables[0][idx] = "one" if idx[0] == idx[1] else "zero"
+    if kind in ("herm_adjoint", "herm_unitary"):
         t0 = tables[0]
         tables[1] = {(k, i) + tuple(o): (adj_val(v) if isinstance(v, list) and v[0] != "raise" else v) for (i, k, *o), v in t0.items()}
     # pre-filled data (known elements, in particular known zeros)
@@ -205,6 +213,8 @@ def gen_case(rng, kind=None):
         else:
             f = rng.randrange(nfac)
             script.append(["pop", f, list(rng.choice(list(tables[f])))])
+    if kind == "herm_unitary":  # all product elements in order of increasing total order
+        script = [["get", P, list(i)] for i in sorted(prod_idx, key=lambda i: (sum(i[2:]), rng.random()))]
     return dict(
         kind=kind,
         nparam=nparam,
